@@ -704,6 +704,13 @@ def factories(ctx):
     add("masked_autoregressive_flow[Affine]", [3] if q else [1, 2, 3], lambda k, d, inv: F.masked_autoregressive_flow(k, base_dist=D.StandardNormal((d,)), invert=inv, **small), both)
     add("masked_autoregressive_flow[RQS]", [1, 2] if q else [1, 2, 3], lambda k, d, inv: F.masked_autoregressive_flow(
         k, base_dist=D.StandardNormal((d,)), transformer=B.RationalQuadraticSpline(knots=4, interval=2), invert=inv, **small), both)
+    if q:
+        # the non-default orientation in the quick tier too, for the spline transformers: log_prob then runs the layers' INVERSE
+        # (MaskedAutoregressive scans the transformer's bare `inverse`), a different code path (seeded change C18e)
+        add("masked_autoregressive_flow[RQS]", [2], lambda k, d, inv: F.masked_autoregressive_flow(
+            k, base_dist=D.StandardNormal((d,)), transformer=B.RationalQuadraticSpline(knots=4, interval=2), invert=inv, **small), (False,))
+        add("coupling_flow[RQS]", [3], lambda k, d, inv: F.coupling_flow(
+            k, base_dist=D.StandardNormal((d,)), transformer=B.RationalQuadraticSpline(knots=3, interval=(-1.0, 3.0)), invert=inv, **small), (False,))
     add("coupling_flow[Affine]", [2] if q else [2, 3], lambda k, d, inv: F.coupling_flow(k, base_dist=D.StandardNormal((d,)), invert=inv, **small), both)
     add("coupling_flow[RQS]", [3] if q else [2, 3], lambda k, d, inv: F.coupling_flow(
         k, base_dist=D.StandardNormal((d,)), transformer=B.RationalQuadraticSpline(knots=3, interval=(-1.0, 3.0)), invert=inv, **small), both)
